@@ -179,6 +179,22 @@ class ndarray:
     def size(self):
         return len(self._a)
 
+    @property
+    def ndim(self):
+        return 1
+
+    @property
+    def T(self):
+        return self
+
+    def flatten(self):
+        return self.copy()
+
+    ravel = flatten
+
+    def item(self, i=0):
+        return self._a[i]
+
     # -- reductions
     def sum(self):
         s = 0.0
